@@ -105,7 +105,8 @@ def run(check):
     check.rule = ("generated workflow trees written to disk (sub-workflow nesting 0-3, sub-workflows shared by two loop steps, sub-directories; output ids success / error "
                   "(inferred) / explicit outputSchema with and without the error flag / custom ids); each tree is run (a) through engine.New().Parse + Run with a file "
                   "cache built from an absolute and from a relative context directory, from different working directories (also changed between building the cache and parsing, with a decoy tree at the same relative path), from disk and from memory, several times, and (b) "
-                  "directly through Prepare + Execute on the same text; oracles: (a) == (b) == reference in id and data, outputIsError == declared flag (inferred: id is "
+                  "directly through Prepare + Execute on the same text, and (c) one engine instance used for 2-3 trees in a row with equal file names, different contents, relative "
+                  "context directories and a refused tree in between; oracles: (a) == (b) == reference in id and data, outputIsError == declared flag (inferred: id is "
                   "'error'), identical results across working directories / cache kinds / repetitions; plus the real command line binary (scripted deployer registered by "
                   "an overlaid init) for the exit-code table 0 / 2 / 3 / 1 and the printed output id and data; distinct = (tree shape, output kind, access variant)")
     check.assumptions = ["exit code for an invalid *input* file is not asserted (the CLI reports it as a failed run)"]
@@ -137,10 +138,66 @@ def run(check):
                      "extra": {"engine": dict(eng)}}
                 items.append(c)
                 metas[c["id"]] = (g, sem, vname, i)
+    # one engine instance used for several trees in a row: trees with the same file names and different contents, a tree that
+    # is refused in between, relative context directories - each tree's result depends on its own directory only
+    seq_cases = []
+    for k in range(check.pick(16, 120)):
+        rng = random.Random(derive_seed(check.seed, "c20-seq", k))
+        elems, sems = [], []
+        for pos in range(rng.choice([2, 3])):
+            g = tree(rng, 1000 * k + pos)
+            # same file names, different plugin sources per position
+            files = {name: text.replace("src: ", "src: p%d_" % pos).replace('"src": "', '"src": "p%d_' % pos) for name, text in g["program"].files().items()}
+            scripts = {"p%d_%s" % (pos, src): sc for src, sc in g["scripts"].items()}
+            elems.append({"files": files, "input_yaml": json.dumps(g["input"]), "rel_dir": rng.random() < 0.6, "_g": g, "_scripts": scripts, "_pos": pos})
+        if rng.random() < 0.5:
+            # a tree that gets as far as preparation and is refused there (its sub-workflow has no success output)
+            bad = {"workflow.yaml": 'version: v0.2.0\ninput: {root: RootObject, objects: {RootObject: {id: RootObject, properties: {tag: {type: {type_id: string}}}}}}\n'
+                                    'steps:\n  loop: {kind: foreach, workflow: sub.yaml, items: [{tag: !expr "$.input.tag"}]}\noutputs:\n  success: {d: !expr "$.steps.loop.outputs.success.data"}\n',
+                   "sub.yaml": 'version: v0.2.0\ninput: {root: Item, objects: {Item: {id: Item, properties: {tag: {type: {type_id: string}}}}}}\n'
+                               'steps:\n  w: {plugin: {src: leaf_w, deployment_type: scripted}, input: {tag: !expr "$.input.tag"}}\noutputs:\n  done: {t: !expr "$.steps.w.outputs.success.tag"}\n'}
+            elems.insert(1, {"files": bad, "input_yaml": '{"tag": "x"}', "rel_dir": rng.random() < 0.5, "_g": None, "_scripts": {}, "_pos": -1})
+        scripts = {}
+        for e in elems:
+            scripts.update(e["_scripts"])
+        seq_cases.append(({"id": "c20-q%04d" % k, "mode": "engine_seq", "files": {}, "scripts": scripts, "runs": [],
+                           "extra": {"sequence": [{kk: v for kk, v in e.items() if not kk.startswith("_")} for e in elems]}}, elems))
     stats = {"trees": n, "engine_runs": 0, "direct_runs": 0, "error_flag_true": 0, "error_flag_false": 0, "cli_runs": 0, "rejected": 0}
     with harness.Runner(instrument=False) as rn:
         out = rn.run_cases(items, per_case_timeout=60)
+        seq_out = rn.run_cases([c for c, _e in seq_cases], per_case_timeout=120)
         cli_results = run_cli(check, rn, stats)
+    for case, elems in seq_cases:
+        o = seq_out.get(case["id"], {})
+        check.count()
+        if "result" not in o:
+            check.inconclusive_case(case["id"], str(o.get("death", {}).get("key")))
+            continue
+        runs = o["result"].get("runs") or []
+        changed = (o["result"].get("extra") or {}).get("cwd_changed") or []
+        if changed:
+            check.report("api@working-directory-changed", "the working directory of the process was different after the engine handled element(s) %s of a sequence" % changed, {"case": case})
+        for pos, (e, rr) in enumerate(zip(elems, runs)):
+            if e["_g"] is None:
+                if not rr.get("err"):
+                    check.report("api@accepted-refused-tree", "the tree without a success output in its sub-workflow was accepted at position %d" % pos, {"case": case})
+                continue
+            g = e["_g"]
+            # the reference of this element: its own program with the renamed sources
+            import copy
+            prog = copy.deepcopy(g["program"])
+            renamed = set()
+            for st in prog.all_plugin_steps():
+                if id(st) not in renamed:  # a sub-workflow shared by two loops is one object
+                    renamed.add(id(st))
+                    st.src = "p%d_%s" % (e["_pos"], st.src)
+            sm = ref.RefSem(prog, e["_scripts"], ref.normalise_input(prog.input_schema, g["input"]))
+            v = compare(sm.result(), rr)
+            if v:
+                check.report("api@sequence:" + v[0], "element %d of a sequence of trees through one engine (%s, %s context directory): %s" % (pos, g["shape"], "relative" if e["rel_dir"] else "absolute", v[1]),
+                             {"case": case, "run": rr})
+            stats["sequence_runs"] = stats.get("sequence_runs", 0) + 1
+        check.nontrivial("seq|%d|%s" % (len(elems), any(e["_g"] is None for e in elems)))
     direct = {}
     for cid in sorted(out):
         g, sem, vname, i = metas[cid]
